@@ -26,7 +26,7 @@ PROPS = {
     "C08": {
         "modules": ["Cose.Props.C08"],
         "families": ["cbor", "map", "msg:wrongtype", "msg:gomap"],
-        "spec_ops": ["cbor.enc", "wire.wrongtype", "wire.badbucket", "cbor.encdup"],
+        "spec_ops": ["cbor.enc", "wire.wrongtype", "wire.badbucket", "wire.badpayload", "cbor.encdup"],
         "n_quick": 8000, "n_thorough": 800000,
         "rule": "cbor.enc: random Go values (all integer kinds, nil/empty slices, nested CoseMaps of 0..320 int/text labels) encoded by the "
                 "library vs the Lean deterministic encoder; cbor.dec / map.unmarshal: random CBOR trees written by an independent "
@@ -139,6 +139,7 @@ PROPS = {
     },
     "C17": {
         "modules": ["Cose.Props.C17"], "families": ["key", "impl", "sig", "ecdh", "dec", "map"], "spec_ops": ["dec.keyjson"],
+        "extras": [{"name": "nolink", "pkg": "./nolink", "args": [], "n_quick": 1, "n_thorough": 1}],
         "n_quick": 1000, "n_thorough": 100000,
         "rule": "symmetric / Ed25519 / ECDSA keys with optional and broken members (kty, alg in every Go kind or absent or foreign, kid, key_ops, Base IV, extra labels, wrong sizes), nil key; "
                 "key.info (kty/alg/ops/kid/baseIV), key.factory for the four kinds (registered / not registered / invalid), behaviour of the obtained implementation",
